@@ -8,6 +8,7 @@ import os, re
 from vlib import *
 from c18_util import run_resilient
 from c18v_util import *
+from c18v_oer import OER_BOUNDARY_L, oer_sizes_for, frame_oer, oer_len
 
 EXTRA_V = os.path.join(HARNESS, "moddrv_c18v.inc")
 BIG_RE = re.compile(r"^U (\d+) ([0-9a-f]{8}) D (\w+) (\d+) (same|diff|-) der=(\d+):([0-9a-f]{8})$")
@@ -169,3 +170,56 @@ def check_big(run, rng, model_exe, m, tier, mrun):
             if t and t[0] == "OK":
                 run.violation("oracle:truncated_fragmented_open_type",
                               dict(replay, what="a frame whose fragmented open type is cut short / lacks its last fragment decodes successfully"))
+
+
+def check_big_oer(run, rng, m, tier):
+    """OER, decoder side (no OER encoder for open types in the skeletons): containers whose own length determinant takes 1, 2, 3 and 4 octets.
+    Oracle on the C alone: Python's X.696 octets decode to the value (DER length:crc32), all consumed; a stream cut inside / right after the
+    open type's length determinant, or one octet short, never decodes."""
+    if not m.get("exe"):
+        return
+    replay0 = {"module": m["text"], "options": m.get("opts")}
+    q = tier == "quick"
+    cases, lines, meta = [], [], []
+    for L in OER_BOUNDARY_L:
+        for kind in KINDS:
+            n = oer_sizes_for(kind, L)
+            if n is None:
+                continue
+            for flag in ([-1] if q and L not in (128, 256, 65536) else [-1, rng.choice([0, 1])]):
+                tail, seed = rng.choice([0, 0x5a, 0x7f, 0x81, 0xff]), 1 + rng.below(1 << 20)
+                ty = "Frame" if flag < 0 else "FrameB"
+                st, il = frame_oer(kind, ROW_ID[kind], n, seed, tail, flag)
+                assert il == L
+                der = frame_der(kind, ROW_ID[kind], n, seed, tail & 0x7f, flag) if tail < 128 else None
+                desc = "oer %s %s items=%d seed=%d tail=%d flag=%d container=%d" % (ty, kind, n, seed, tail, flag, L)
+                lines.append("bigdec %s %s oer" % (ty, st.hex()))
+                meta.append((desc, "full", st, der))
+                run.count("bigrow_oer_%s_L%d" % (kind, L))
+                run.count("bigrow_oer_length_octets_%d" % len(oer_len(L)))
+                head = 2 + (0 if flag < 0 else 1)
+                for c in sorted(set([head + 1, head + len(oer_len(L)), len(st) - 1])):
+                    if 0 < c < len(st):
+                        lines.append("bigdec %s %s oer" % (ty, st[:c].hex()))
+                        meta.append((desc, "cut@%d" % c, st, None))
+    outs, crashes, leak = run_resilient(m["exe"], lines)
+    if leak is not None:
+        run.violation("leak:bigrow_oer", dict(replay0, what="the driver answered every command but exited non-zero", stderr_tail=leak[-2500:]))
+    for j, ((desc, what, st, der), out) in enumerate(zip(meta, outs)):
+        short = "bigdec of [%s] %s" % (desc, what)
+        run.case(short)
+        replay = dict(replay0, command=short, stream_head=st[:16].hex(), stream_octets=len(st), c=out)
+        if j in crashes or out == "CRASH":
+            run.violation("crash:bigrow_oer", dict(replay, what="the driver died decoding an OER frame with a big open type", stderr_tail=crashes.get(j, "")[-2500:]))
+            continue
+        t = out.split()
+        if what == "full":
+            # tail INTEGER (0..255) above 127 takes two DER octets: the DER is then compared by length only through RC and consumed
+            want = ["OK", str(len(st))] + (["%d:%s" % (len(der), crc(der))] if der is not None else [])
+            if t[:len(want)] != want:
+                run.violation("oracle:decode_big_open_type(oer)", dict(replay, what="the C decoder does not decode the standard's OER octets of a frame whose open type has a long-form length to the value",
+                                                                       expected=" ".join(want)))
+        else:
+            run.count("bigrow_oer_fault_cut")
+            if t and t[0] == "OK":
+                run.violation("oracle:truncated_big_open_type(oer)", dict(replay, what="an OER frame cut inside its open type decodes successfully"))
